@@ -9,6 +9,7 @@
 #
 import datetime
 import importlib
+from copy import copy
 from collections.abc import Iterator, Sequence, Callable
 from functools import cached_property
 from types import ModuleType
@@ -353,7 +354,7 @@ class XPathContext:
         """
         if varnames is None:
             varnames = []
-        iterators = [x(self) for x in selectors]
+        iterators = [x(copy(self)) for x in selectors]  # each range in its own copy of the focus
         dimension = len(iterators)
         prod = [None] * dimension
         max_index = dimension - 1
@@ -375,7 +376,7 @@ class XPathContext:
             else:
                 if not k:
                     return
-                iterators[k] = selectors[k](self)
+                iterators[k] = selectors[k](copy(self))
                 k -= 1
 
     ##
